@@ -45,7 +45,18 @@ def globalSource (n : Nat) : Op → Bool
   | .addGlobal m _ => m == n
   | .lookup m => m == n
   | .letCs _ s => s == n
+  | .gdef m _ => m == n
   | _ => false
+
+/-- `op` is a `\\gdef` of `n` -/
+def isGdef (n : Nat) : Op → Bool
+  | .gdef m _ => m == n
+  | _ => false
+
+/-- what a balanced history leaves of the stack `c`: the local bindings of the names in `ns`
+    (those it defined globally with `\\gdef`) are gone from every enclosing level, and the
+    definitions `g` were added to the global frame -/
+def shape (g : List (Nat × Val)) (ns : List Nat) (c : Ctx) : Ctx := extG g (dropLocalsL ns c)
 
 /-- the global frame's own binding of a name -/
 def findGlobal (n : Nat) : Ctx → Option Val
